@@ -80,27 +80,27 @@ def plans(seed, q):
         ("core", dict(ops=core, depth=3 if q else 4, kinds=k2[:1], where=("body",))),
         # after opening packages with arbitrary relationship ids
         ("foreign", dict(ops=fcore, depth=2 if q else 3, kinds=("default",), where=("body",),
-                         new=False, schemes=SCHEMES, contents=["full"] if q else ["mix", "full"])),
+                         new=False, schemes=SCHEMES, contents=["full"])),
     ]
     if q:
         P += [("foreign1", dict(ops=ALLOPS, depth=1, via=VIA1 | {"legacy"}, kinds=k2[:1], new=False, schemes=SCHEMES,
                                 contents=["min", "full", ["pics", "hf2", "notes", "mix", "hf"][seed % 5]])),
               # absolute targets, no header relationships / property relationships, opened from a file: rotated by the seed
               ("foreignabs", dict(ops=fcore, depth=1, kinds=("first",), where=("cell",), via=VIA1 | {"file"} - {"mem"}, new=False,
-                                  schemes=SCHEMES[seed % 3::3], contents=["hf", "full"], flags=(False,), abs_=(True,)))]
+                                  schemes=SCHEMES, contents=[["hf", "full", "notes"][seed % 3]], flags=(False,), abs_=(True,)))]
     else:
         P += [
-            ("foreign1", dict(ops=ALLOPS, depth=1, via=ALLVIA - {"file"}, new=False, schemes=SCHEMES, contents=CONTENTS, flags=(True, False), abs_=(False, True))),
-            ("foreignfile", dict(ops=fcore, depth=1, via=VIA1 | {"file"}, new=False, schemes=SCHEMES, contents=["hf", "full"], abs_=(False, True))),
-            ("foreign2", dict(ops=fcore + ["AddHeaderWithPageNumber", "AddFooter", "SetProps"], depth=2, kinds=("default", "even"), where=("body", "cell"),
+            ("foreign1", dict(ops=ALLOPS, depth=1, via=ALLVIA - {"file"}, new=False, schemes=SCHEMES, contents=CONTENTS, flags=(True,), abs_=(False, True))),
+            ("foreignfile", dict(ops=fcore, depth=1, via=VIA1 | {"file"}, new=False, schemes=SCHEMES, contents=["full"], flags=(False,), abs_=(False, True))),
+            ("foreign2", dict(ops=fcore + ["AddHeaderWithPageNumber"], depth=2, kinds=("default", "even"), where=("body", "cell"),
                               new=False, schemes=SCHEMES, contents=["min", "notes", "hf2"])),
             # redefinitions free ids in the middle of the list: constructors x kinds x other creating calls, deeper
             ("hf", dict(ops=HF6 + ["AddImage", "Reopen"], depth=3, kinds=k2, where=("body",))),
             ("hf4", dict(ops=["AddHeader", "AddFooter", "AddImage", "AddFootnote", "Reopen"], depth=4, kinds=k2[:1], where=("cell",))),
             ("hf5", dict(ops=["AddHeader", "AddImage", "Reopen"], depth=6, kinds=k2[:1], where=("body",))),
-            ("tmpl", dict(ops=["Placeholder", "Render", "AddImage", "AddHeader", "Reopen"], depth=4, kinds=("default",),
+            ("tmpl", dict(ops=["Placeholder", "Render", "AddImage", "Reopen"], depth=4, kinds=("default",),
                           where=("body", "cell"), via=VIA1 | {"legacy", "renderer"})),
-            ("foreignhf", dict(ops=HF6 + ["AddImage"], depth=2, kinds=k2, where=("body",), new=False, schemes=SCHEMES, contents=["hf", "hf2", "full"])),
+            ("foreignhf", dict(ops=HF6 + ["AddImage"], depth=2, kinds=k2, where=("body",), new=False, schemes=SCHEMES, contents=["hf2", "full"])),
         ]
     return P
 
